@@ -33,6 +33,52 @@ type c06Case struct {
 	Evs    []c06Ev
 	Reinit time.Duration // 0 = none; link event at this instant
 	Seed   time.Duration
+	// Stall: the StallIdx-th multicast write (0 = the initial RA) blocks for
+	// StallFor before the packet is on the wire.
+	StallFor time.Duration
+	StallIdx int
+}
+
+// c06StallCheck: with a stalled transmission the wire instants are the
+// write_end events; they must be MIN_DELAY_BETWEEN_RAS apart all the same.
+func c06StallCheck(r *vlib.Run, c *c06Case, ev []vfake.Event) {
+	type w struct {
+		t    time.Duration
+		gen  int
+		life int64
+		idx  int
+	}
+	var ws []w
+	cancelIx := -1
+	for i, e := range ev {
+		switch {
+		case e.Kind == "cancel" && cancelIx < 0:
+			cancelIx = i
+		case e.Kind == "write_end" && e.Dst == vAllNodes.String() && e.Err == "":
+			ws = append(ws, w{e.T, e.Gen, e.Life, i})
+		}
+	}
+	stalled := false
+	for _, e := range ev {
+		if e.Kind == "stall" {
+			stalled = true
+		}
+	}
+	if stalled {
+		r.Count("stalled_transmissions", 1)
+	}
+	for i := 1; i < len(ws); i++ {
+		a, b := ws[i-1], ws[i]
+		if a.gen != b.gen || (cancelIx >= 0 && b.idx > cancelIx && b.life == 0) {
+			continue
+		}
+		r.Count("multicast_gaps_checked_after_stall", 1)
+		if b.t-a.t < vMinDelay {
+			r.Violation(c.ID, "spacing-after-stall", fmt.Sprintf("multicast RAs were on the wire at %v and %v, %v apart (< 3s), after transmission %d had been stalled for %v", a.t, b.t, b.t-a.t, c.StallIdx, c.StallFor),
+				map[string]any{"case": c, "trace": vfake.Strings(vOnly(ev, "write_begin", "write_end", "stall", "read_deliver", "cancel"), 80)})
+			return
+		}
+	}
 }
 
 // ticks returns the known instants (relative to a generation's start) at
@@ -201,6 +247,22 @@ func c06Run(t *testing.T, r *vlib.Run, c *c06Case) {
 	var runErr error
 	pm := vBubble(t, func() {
 		h := vNewH(ifi, exp, c.Seed)
+		if c.StallFor > 0 {
+			h.connSetup = func(cn *vfake.Conn) {
+				k := 0
+				cn.WriteLatencyOf = func(_ int, dst netip.Addr) time.Duration {
+					if !dst.IsMulticast() {
+						return 0
+					}
+					k++
+					if k-1 == c.StallIdx {
+						h.tr.Add(vfake.Event{Kind: "stall", Val: int64(c.StallFor)})
+						return c.StallFor
+					}
+					return 0
+				}
+			}
+		}
 		h.startAdvertiser()
 		last := time.Duration(0)
 		reinitDone := c.Reinit == 0
@@ -259,6 +321,11 @@ func c06Run(t *testing.T, r *vlib.Run, c *c06Case) {
 	}
 	r.Count("events_observed", len(ev))
 	r.Distinct("trace_signatures", vfake.Signature(vOnly(ev, "write_begin", "read_deliver", "cancel", "dial")))
+	if c.StallFor > 0 {
+		c06StallCheck(r, c, ev)
+		r.Nontrivial(c.ID)
+		return
+	}
 	c06Check(r, c, ev, returned)
 	// non-trivial: two triggers closer than 3 s, or a trigger < 3 s after a transmission
 	nt := false
@@ -337,6 +404,26 @@ func TestVerifC06(t *testing.T) {
 					}
 				}
 				rec(nil, anchor, "")
+			}
+		}
+	}
+
+	if r.Part == "det" {
+		// A transmission that blocks (a full socket buffer, a frozen process)
+		// while further multicast triggers arrive.  Ticks every 4 s: the write
+		// with index k begins at about 4k s when nothing else is requested.
+		offs := []time.Duration{vMs, time.Second, 2900 * vMs, 3100 * vMs, 4900 * vMs, 5100 * vMs, 7 * time.Second}
+		for _, idx := range []int{0, 1, 2} {
+			for _, sf := range []time.Duration{3500 * vMs, 5 * time.Second, 9 * time.Second} {
+				base := time.Duration(idx) * 4 * time.Second
+				for i, o1 := range offs {
+					run(&c06Case{ID: fmt.Sprintf("stall/%d/%v/%d", idx, sf, i), Max: 4 * time.Second, StallFor: sf, StallIdx: idx,
+						Evs: []c06Ev{{At: base + o1}}, Seed: time.Duration(i*31 + idx)})
+					for j, o2 := range offs[i:] {
+						run(&c06Case{ID: fmt.Sprintf("stall/%d/%v/%d+%d", idx, sf, i, j), Max: 4 * time.Second, StallFor: sf, StallIdx: idx,
+							Evs: []c06Ev{{At: base + o1}, {At: base + o1 + o2, Unicast: j%3 == 2}}, Seed: time.Duration(i*31 + j)})
+					}
+				}
 			}
 		}
 	}
